@@ -296,7 +296,19 @@ func (it *Interp) abstractFindAVP(g *G, appid *Term, code Value, vendor *Term, w
 		it.assume(ts.Not(ts.Eq(vendor, ts.Const(32, undefinedVendor))))
 	}
 	ty := it.freshInput("dict.type", "dicttype", 8)
-	it.pc = append(it.pc, ts.Or(ts.Ule(ty, ts.Const(8, 18)), ts.Eq(ty, ts.Const(8, 255))))
+	// a defined AVP carries one of the 18 named types of datatype.Available (UnknownType 0 is only
+	// produced by the MakeUnknownAVP placeholder); 255 = undefined
+	it.pc = append(it.pc, ts.Or(ts.And(ts.Ule(ts.Const(8, 1), ty), ts.Ule(ty, ts.Const(8, 18))), ts.Eq(ty, ts.Const(8, 255))))
+	if mask := it.cfg.Params["dict_types"]; mask != 0 {
+		// tier-dependent restriction of the dictionary answers to behaviour classes (stated in the bounds)
+		allowed := ts.Eq(ty, ts.Const(8, 255))
+		for k := 1; k <= 18; k++ {
+			if mask&(1<<uint(k)) != 0 {
+				allowed = ts.Or(allowed, ts.Eq(ty, ts.Const(8, uint64(k))))
+			}
+		}
+		it.pc = append(it.pc, allowed)
+	}
 	for _, l := range it.dictLookups {
 		same := ts.And(ts.Eq(l.app, appid), ts.And(ts.Eq(l.code, ct), ts.Eq(l.vendor, vendor)))
 		if same.IsFalse() {
